@@ -19,7 +19,9 @@
     forced and the check now respects: the record type given to the builder is 0 or the one
     its WARC-Type field names (a defect found this way, repaired); the block policy is the one
     axis with a side condition (the builder rejects block problems or the reader ignores them).
-    Not mechanised: the codec contract for base32 / base64 (oracle decoders), the byte equality
+    The contract is also proved for base32 and base64 ([C01_base32_and_base64_meet_the_codec_contract])
+    under one assumption on the oracle decoders (they invert the modelled encoders on hash values).
+    Not mechanised: the base32 / base64 decoders themselves (oracles), the byte equality
     of re-marshalling (it follows from record equality by [marshal] being a function, the
     statement about the implementation is evaluated), and the gzip container.  These are
     evaluated on the implementation (domain rt: build, marshal, plain or gzip, parse under
@@ -241,14 +243,56 @@ Proof. intros. eapply built_record_round_trips_with_digests; eassumption. Qed.
 Print Assumptions C01_strictly_built_record_round_trips.
 
 (** base16 meets the contract for every supported algorithm, whatever the hash function is, as
-    long as it returns [alg_size] bytes; base32 and base64 have oracle decoders and stay with the
-    differential run *)
+    long as it returns [alg_size] bytes *)
 Theorem C01_base16_meets_the_codec_contract :
   forall uni_lower uni_upper H b32 b64 al e,
     (forall a x, List.length (H a x) = alg_size a /\ Forall is_byte (H a x)) ->
     codec_ok uni_lower uni_upper H b32 b64 e (fresh16 al) /\ digest_text_clean uni_lower H (fresh16 al).
 Proof. intros. split; [apply codec_ok_base16; assumption|apply digest_text_clean_base16; assumption]. Qed.
 Print Assumptions C01_base16_meets_the_codec_contract.
+
+(** base32 and base64 meet the contract too, for every supported algorithm: the encoders are the
+    modelled ones (lengths by which newDigest recognises the encoding, md5's trailing '=',
+    alphabets that case mapping and header parsing leave alone are proved of them); of the
+    decoders of the Go standard library, which are oracles, it is assumed that they invert the
+    encoders on the hash values that occur *)
+Require Import Proofs.Codec3264Proofs.
+Theorem C01_base32_and_base64_meet_the_codec_contract :
+  forall uni_lower uni_upper H b32 b64 al e,
+    (forall a x, List.length (H a x) = alg_size a /\ Forall is_byte (H a x)) ->
+    (forall a x, b32 (b32_encode (H a x)) = Some (H a x)) ->
+    (forall a x, b64 (b64_encode (H a x)) = Some (H a x)) ->
+    (codec_ok uni_lower uni_upper H b32 b64 e (fresh_enc al Base32) /\ digest_text_clean uni_lower H (fresh_enc al Base32)) /\
+    (codec_ok uni_lower uni_upper H b32 b64 e (fresh_enc al Base64) /\ digest_text_clean uni_lower H (fresh_enc al Base64)).
+Proof.
+  intros ul uu H b32 b64 al e Hsz H32 H64. split; split.
+  - apply codec_ok_base32; assumption.
+  - exact (digest_text_clean_base32 ul uu H al).
+  - apply codec_ok_base64; assumption.
+  - exact (digest_text_clean_base64 ul uu H al).
+Qed.
+Print Assumptions C01_base32_and_base64_meet_the_codec_contract.
+
+(** non-vacuity of the three hypotheses (a constant hash and table decoders), and the digest the
+    options "sha1" / Base32 and "sha256" / Base64 start from is the one the theorem speaks of *)
+Definition ex32_h (a : alg) (_ : bytes) : bytes := repeat 7 (alg_size a).
+Definition ex32_table (encode : bytes -> bytes) (s : bytes) : option bytes :=
+  find (fun h => bytes_eqb (encode h) s) [ex32_h MD5 []; ex32_h SHA1 []; ex32_h SHA256 []; ex32_h SHA512 []].
+Example C01_base32_base64_hypotheses_are_satisfiable :
+  (forall a x, List.length (ex32_h a x) = alg_size a /\ Forall is_byte (ex32_h a x)) /\
+  (forall a x, ex32_table b32_encode (b32_encode (ex32_h a x)) = Some (ex32_h a x)) /\
+  (forall a x, ex32_table b64_encode (b64_encode (ex32_h a x)) = Some (ex32_h a x)) /\
+  new_digest (fun s => s) (fun s => s) (bs "sha1") Base32 = Some (fresh_enc SHA1 Base32) /\
+  new_digest (fun s => s) (fun s => s) (bs "sha256") Base64 = Some (fresh_enc SHA256 Base64).
+Proof.
+  split; [|split; [|split; [|split]]].
+  - intros a x. split; [destruct a; reflexivity|]. unfold ex32_h. apply Forall_forall. intros b Hb.
+    apply repeat_spec in Hb. subst b. reflexivity.
+  - intros a x. destruct a; vm_compute; reflexivity.
+  - intros a x. destruct a; vm_compute; reflexivity.
+  - vm_compute. reflexivity.
+  - vm_compute. reflexivity.
+Qed.
 
 (** non-vacuity: the default-style configuration (sha1, base16) on the response above *)
 Definition exd_opts := mkopts Fail Fail Fail Fail false true true true true true false false (bs "sha1") Base16.
